@@ -74,6 +74,16 @@ func formatCommentCharacter(comment string, char rune) string {
 	return string(bs)
 }
 
+// A statement starts a new group of lines when an empty line precedes it or its leading comments.
+// The empty line is printed before the leading comments, so both must be looked at
+// to find the same groups again in the formatted text.
+func followsEmptyLine(meta *ast.Meta) bool {
+	if meta.PreviousEmptyLines > 0 {
+		return true
+	}
+	return len(meta.Leading) > 0 && meta.Leading[0].PreviousEmptyLines > 0
+}
+
 // Return comment is inline comment that has "/* ... */" syntax
 func isInlineComment(comments ast.Comments) bool {
 	if len(comments) == 0 {
